@@ -1408,21 +1408,49 @@ func specialIndexProof(f *ssa.Function, x, idx ssa.Value, blk *ssa.BasicBlock) (
 	// (b)
 	if ph, ok := idx.(*ssa.Phi); ok {
 		sentinel := false
-		for _, e := range ph.Edges {
-			if kc, ok := e.(*ssa.Const); ok && isIntConst(kc) && kc.Int64() == -1 {
-				sentinel = true
-				continue
+		// every edge is −1, the index of an indexed callback over x, or a value that is a
+		// bounded index of x where the edge leaves its predecessor (the index of a range loop
+		// over x); joins of such values are looked through
+		var edgesOK func(p *ssa.Phi, seen map[*ssa.Phi]bool) bool
+		edgesOK = func(p *ssa.Phi, seen map[*ssa.Phi]bool) bool {
+			if seen[p] {
+				return true
 			}
-			// an index of an indexed callback over x itself: parameter or free variable that is one
-			switch e.(type) {
-			case *ssa.Parameter, *ssa.FreeVar:
-			case *ssa.UnOp:
-			default:
-				return "", false
+			seen[p] = true
+			for i, e := range p.Edges {
+				if kc, ok := e.(*ssa.Const); ok && isIntConst(kc) && kc.Int64() == -1 {
+					sentinel = true
+					continue
+				}
+				if ip, ok := e.(*ssa.Phi); ok && ip.Block() != p.Block() {
+					if isLoopHeaderPhi(ip) {
+						return false
+					}
+					if edgesOK(ip, seen) {
+						continue
+					}
+					return false
+				}
+				switch e.(type) {
+				case *ssa.Parameter, *ssa.FreeVar, *ssa.UnOp:
+					if callbackIndexOver(f, e, x) {
+						continue
+					}
+				}
+				if i < len(p.Block().Preds) {
+					saved := curUseBlock
+					_, ok := varIndexCovered(f, x, e, p.Block().Preds[i])
+					curUseBlock = saved
+					if ok {
+						continue
+					}
+				}
+				return false
 			}
-			if !callbackIndexOver(f, e, x) {
-				return "", false
-			}
+			return true
+		}
+		if !edgesOK(ph, map[*ssa.Phi]bool{}) {
+			return "", false
 		}
 		if sentinel {
 			// dominating test idx != -1
@@ -1784,6 +1812,35 @@ func evenLength(f *ssa.Function, v ssa.Value, blk *ssa.BasicBlock, seen map[ssa.
 			if edge >= 0 && edgesDominate(f, []cfgEdge{{b, edge}}, blk) {
 				return true
 			}
+		}
+	}
+	return false
+}
+
+// isLoopHeaderPhi: one of the phi's edges is computed from the phi itself (a loop-carried value).
+func isLoopHeaderPhi(p *ssa.Phi) bool {
+	for _, e := range p.Edges {
+		seen := map[ssa.Value]bool{}
+		var dep func(v ssa.Value, d int) bool
+		dep = func(v ssa.Value, d int) bool {
+			if v == ssa.Value(p) {
+				return true
+			}
+			if d > 6 || seen[v] {
+				return false
+			}
+			seen[v] = true
+			if in, ok := v.(ssa.Instruction); ok {
+				for _, op := range in.Operands(nil) {
+					if *op != nil && dep(*op, d+1) {
+						return true
+					}
+				}
+			}
+			return false
+		}
+		if e != ssa.Value(p) && dep(e, 0) {
+			return true
 		}
 	}
 	return false
